@@ -285,9 +285,12 @@ blank/tab/NUL/LF, not beginning with `#` nor `//`; text residues graphic; digita
     `WT AC DE` (`gsTagOk`), their values non-empty, free text, no line feed.
 `stockholm_roundtrip_full_partial` lists every field that comes back.
 
-PARTIAL with respect to the full statement ("Stockholm and Pfam preserve all of it"): `StoAnn` still demands `hasw = false`
-(no `#=GS … WT` weights): that part of Stage 4.4 is not covered by a theorem; multi-line `#=GS` values (with line feeds)
-are excluded; the numeric VALUE of weights/cut-offs is not in the reader model.  The executable check covers all of them
+  * `#=GS <seqname> WT` weights (Stage 4.4 complete: `stockholm_roundtrip_gs`, `stockholm_roundtrip_full`): every printed
+    weight `wgtTokOk` (`wgtTokOk_of_nonneg`: finite, sign bit clear); with weights `gsOrderOk` always holds
+    (`gsOrderOk_of_hasw`).  `stoProject.wgt` = set/unset as the reader MODEL keeps it (`Wgt.val 0` when `hasw`).
+
+Remaining restrictions with respect to the full statement: multi-line `#=GS` values (with line feeds) and optional arrays
+without any entry are excluded; the numeric VALUE of weights/cut-offs is not in the reader model.  The executable check covers all of them
 (field-by-field comparison on the real library, values included). -/
 
 theorem stockholm_write_deterministic (pfam : Bool) (abc : Option Abc) (m₁ m₂ : Msa) (h : m₁ = m₂) :
@@ -454,6 +457,39 @@ theorem stockholm_roundtrip_gs_partial (pfam : Bool) (abc : Option Abc) (cfg : C
     (stoProject cfg m).names = m.names :=
   ⟨stoRead_write pfam abc cfg enc txt m h, rfl, rfl, rfl, rfl⟩
 
+/-- **Stage 4.4 complete: `#=GS` with weights.**  `#=GS <seqname> WT <w>` lines (written for every sequence when
+    `eslMSA_HASWGTS`, as the FIRST `#=GS` kind), then `AC`, `DE`, unparsed tags.  Hypotheses (`StoAnn`): every printed weight
+    is `wgtTokOk` (one token `esl_mem_IsReal` accepts and `strtod` does not read as -1.0, the "unset" marker;
+    `wgtTokOk_of_nonneg`: finite and sign bit clear suffices); `gsOrderOk` (with weights it holds for ANY sparse `AC/DE/tags`:
+    `gsOrderOk_of_hasw`).  Of a weight the reader MODEL keeps whether it is set, not its value: `stoProject` has
+    `wgt = Wgt.val 0` for every sequence when `hasw`, else the default weights (the harness compares the values). -/
+theorem stockholm_roundtrip_gs (pfam : Bool) (abc : Option Abc) (cfg : Cfg) (enc : UInt8 → UInt8) (txt : Nat → Bytes) (m : Msa)
+    (h : StoWritable abc cfg enc txt m) :
+    stockholmRead cfg (splitLines (stockholmWrite pfam abc m)) = (.ok (stoProject cfg m), []) ∧
+    (stoProject cfg m).hasw = m.hasw ∧
+    (stoProject cfg m).wgt = (if m.hasw then List.replicate m.nseq (Wgt.val 0) else List.replicate m.nseq Wgt.dflt) ∧
+    (stoProject cfg m).sqacc = m.sqacc ∧ (stoProject cfg m).sqdesc = m.sqdesc ∧ (stoProject cfg m).gs = m.gs ∧
+    (stoProject cfg m).names = m.names :=
+  ⟨stoRead_write pfam abc cfg enc txt m h, rfl, rfl, rfl, rfl, rfl, rfl⟩
+
+/-- **Stockholm and Pfam preserve all of it**: names, rows, comments, `#=GF` parsed and unparsed, which cut-offs are set, `#=GC`
+    parsed and unparsed, `#=GR SS SA PP` and unparsed, `#=GS WT AC DE` and unparsed - every annotation field comes back as it is;
+    the numeric VALUE of weights and cut-offs is outside the reader model -/
+theorem stockholm_roundtrip_full (pfam : Bool) (abc : Option Abc) (cfg : Cfg) (enc : UInt8 → UInt8) (txt : Nat → Bytes) (m : Msa)
+    (h : StoWritable abc cfg enc txt m) :
+    stockholmRead cfg (splitLines (stockholmWrite pfam abc m)) = (.ok (stoProject cfg m), []) ∧
+    (stoProject cfg m).names = m.names ∧ (stoProject cfg m).alen = m.alen ∧
+    (stoProject cfg m).name = m.name ∧ (stoProject cfg m).acc = m.acc ∧ (stoProject cfg m).desc = m.desc ∧ (stoProject cfg m).au = m.au ∧
+    (stoProject cfg m).comments = m.comments ∧ (stoProject cfg m).gf = m.gf ∧
+    (stoProject cfg m).ssCons = m.ssCons ∧ (stoProject cfg m).saCons = m.saCons ∧ (stoProject cfg m).ppCons = m.ppCons ∧
+    (stoProject cfg m).rf = m.rf ∧ (stoProject cfg m).mm = m.mm ∧ (stoProject cfg m).gc = m.gc ∧
+    (stoProject cfg m).ss = m.ss ∧ (stoProject cfg m).sa = m.sa ∧ (stoProject cfg m).pp = m.pp ∧ (stoProject cfg m).gr = m.gr ∧
+    (stoProject cfg m).sqacc = m.sqacc ∧ (stoProject cfg m).sqdesc = m.sqdesc ∧ (stoProject cfg m).gs = m.gs ∧
+    (stoProject cfg m).hasw = m.hasw ∧
+    (stoProject cfg m).wgt = (if m.hasw then List.replicate m.nseq (Wgt.val 0) else List.replicate m.nseq Wgt.dflt) :=
+  ⟨stoRead_write pfam abc cfg enc txt m h, rfl, rfl, rfl, rfl, rfl, rfl, rfl, rfl, rfl, rfl, rfl, rfl, rfl, rfl, rfl, rfl, rfl, rfl, rfl,
+    rfl, rfl, rfl, rfl⟩
+
 /-- **everything the theorems cover at once** (PARTIAL: all of the annotation except weights, see
     `stockholm_roundtrip_gs_partial`): names, rows, `#=GC` parsed and unparsed, `#=GF` parsed and unparsed, comments, which
     cut-offs are set, `#=GR SS SA PP` and unparsed, `#=GS AC DE` and unparsed come back; `stoProject` leaves every one of these
@@ -482,14 +518,15 @@ theorem stockholm_rewrite_same (pfam : Bool) (abc : Option Abc) (cfg : Cfg) (m :
   stockholmWrite_project pfam abc cfg m hw hc hd ha
 
 /-- … text mode -/
-theorem stockholm_rewrite_same_text (pfam : Bool) (m : Msa) (h : StoTextWritable m) (hc : m.cutoff = []) :
+theorem stockholm_rewrite_same_text (pfam : Bool) (m : Msa) (h : StoTextWritable m) (hw : m.hasw = false) (hc : m.cutoff = []) :
     stockholmWrite pfam none (stoProject (stockholmCfg none) m) = stockholmWrite pfam none m :=
-  stockholmWrite_project pfam none (stockholmCfg none) m h.ann.hasw hc (by rw [h.dig]; rfl) (by rw [h.dig]; rfl)
+  stockholmWrite_project pfam none (stockholmCfg none) m hw hc (by rw [h.dig]; rfl) (by rw [h.dig]; rfl)
 
 /-- … digital mode (amino, DNA, RNA) -/
-theorem stockholm_rewrite_same_digital (pfam : Bool) (a : Abc) (m : Msa) (h : StoDigitalWritable a m) (hc : m.cutoff = []) :
+theorem stockholm_rewrite_same_digital (pfam : Bool) (a : Abc) (m : Msa) (h : StoDigitalWritable a m) (hw : m.hasw = false)
+    (hc : m.cutoff = []) :
     stockholmWrite pfam (some a) (stoProject (stockholmCfg (some a)) m) = stockholmWrite pfam (some a) m :=
-  stockholmWrite_project pfam (some a) (stockholmCfg (some a)) m h.ann.hasw hc (by rw [h.dig]; rfl) (by rw [h.dig]; rfl)
+  stockholmWrite_project pfam (some a) (stockholmCfg (some a)) m hw hc (by rw [h.dig]; rfl) (by rw [h.dig]; rfl)
 
 /-- `printf("%.1f")` of a finite single-precision value is a token the cut-off parser accepts (`esl_mem_IsReal`) -/
 theorem cutoff_token_accepted (b : UInt32) (h : finiteF32 b) : memIsReal (fmtF1 b) = true := (fmtF1_realTok b h).real
@@ -554,8 +591,7 @@ def exStoAnn : Msa :=
 theorem exStoAnn_writable : StoTextWritable exStoAnn :=
   { dig := rfl
     ann :=
-      { hasw := rfl
-        gs_tag_ok := fun t ht => by cases ht
+      { gs_tag_ok := fun t ht => by cases ht
         gs_nodup := List.nodup_nil
         gs_ne := fun t ht => absurd ht (Nat.not_lt_zero t)
         gs_per_ok := fun q hq l hl => by
@@ -629,8 +665,7 @@ def exStoGc : Msa :=
 theorem exStoGc_writable : StoTextWritable exStoGc :=
   { dig := rfl
     ann :=
-      { hasw := rfl
-        gs_tag_ok := fun t ht => by cases ht
+      { gs_tag_ok := fun t ht => by cases ht
         gs_nodup := List.nodup_nil
         gs_ne := fun t ht => absurd ht (Nat.not_lt_zero t)
         gs_per_ok := fun q hq l hl => by
@@ -696,8 +731,7 @@ def exStoGr : Msa :=
 theorem exStoGr_writable : StoTextWritable exStoGr :=
   { dig := rfl
     ann :=
-      { hasw := rfl
-        gs_tag_ok := fun t ht => by cases ht
+      { gs_tag_ok := fun t ht => by cases ht
         gs_nodup := List.nodup_nil
         gs_ne := fun t ht => absurd ht (Nat.not_lt_zero t)
         gs_per_ok := fun q hq l hl => by
@@ -776,21 +810,20 @@ def exStoGs : Msa :=
 theorem exStoGs_writable : StoTextWritable exStoGs :=
   { dig := rfl
     ann :=
-      { hasw := rfl
-        gs_tag_ok := by unfold gsTagOk nameOk; decide +kernel
+      { gs_tag_ok := by unfold gsTagOk nameOk; decide +kernel
         gs_nodup := by decide +kernel
         gs_ne := by decide +kernel
         gs_per_ok := fun q hq l hl => by
           rcases q with _ | _ | _ | _
+          · cases hl
           · cases hl; exact ⟨rfl, 0, by decide, rfl⟩
           · cases hl; exact ⟨rfl, 1, by decide, rfl⟩
-          · cases hl
           · omega
         gs_order := by unfold gsOrderOk; decide +kernel
         gs_val := fun q i s hs => by
           rcases q with _ | _ | _ | _ | _ | q <;> rcases i with _ | _ | i <;>
             first
-            | (cases hs; unfold gfTokOk gfTextOk nameOk; decide +kernel)
+            | (cases hs; unfold wgtTokOk gfTokOk gfTextOk nameOk; decide +kernel)
             | cases hs
         per_ok := fun q hq l hl => by
           rcases q with _ | _ | _ | _
@@ -824,6 +857,63 @@ example : stoProject (stockholmCfg none) exStoGs = exStoGs := by decide +kernel
 example : (stockholmLines false none exStoGs).take 12 =
     [str "# STOCKHOLM 1.0", [], str "#=GS s1 AC P1", str "#=GS s2 AC Q2.1", [], str "#=GS s2 DE a b", [],
      str "#=GS s1 OS Homo sapiens", str "#=GS s2 OS Mus", [], str "#=GS s2 DR PDB; 1abc", []] := by decide +kernel
+
+/-- 2 sequences, 201 columns, weights 0.5 and 1.0, an accession for the SECOND sequence only: `WT` is the first `#=GS` kind and
+    covers every sequence, so `gsOrderOk` holds although `AC` is sparse -/
+def exStoWt : Msa :=
+  { exSto201 with hasw := true, wgt := [.val 0x3FE0000000000000, .dflt], sqacc := some [none, some (str "Q2")] }
+
+theorem exStoWt_writable : StoTextWritable exStoWt :=
+  { dig := rfl
+    ann :=
+      { gs_tag_ok := fun t ht => by cases ht
+        gs_nodup := List.nodup_nil
+        gs_ne := fun t ht => absurd ht (Nat.not_lt_zero t)
+        gs_per_ok := fun q hq l hl => by
+          rcases q with _ | _ | _ | _
+          · cases hl; exact ⟨rfl, 0, by decide, rfl⟩
+          · cases hl; exact ⟨rfl, 1, by decide, rfl⟩
+          · cases hl
+          · omega
+        gs_order := gsOrderOk_of_hasw exStoWt rfl
+        gs_val := fun q i s hs => by
+          rcases q with _ | _ | _ | q <;> rcases i with _ | _ | i <;>
+            first
+            | (cases hs; unfold wgtTokOk gfTokOk gfTextOk nameOk; decide +kernel)
+            | cases hs
+        per_ok := fun q hq l hl => by
+          rcases q with _ | _ | _ | _
+          · cases hl
+          · cases hl
+          · cases hl
+          · omega
+        gr_tag_ok := fun t ht => by cases ht
+        gr_nodup := List.nodup_nil
+        gr_ne := fun t ht => absurd ht (Nat.not_lt_zero t)
+        gr_order := fun t ht => absurd ht (Nat.not_lt_zero t)
+        gr_col := fun q i s hs => by rw [grVal_plain rfl rfl rfl rfl] at hs; cases hs
+        gc_ok := fun t ht => by cases ht
+        gc_nodup := List.nodup_nil
+        cons_ok := fun k s hs => by
+          rcases k with _ | _ | _ | _ | _ | _ <;> cases hs
+        name_ok := fun v hv => by cases hv
+        acc_ok := fun v hv => by cases hv
+        desc_ok := fun v hv => by cases hv
+        au_ok := fun v hv => by cases hv
+        cut_ok := fun k v hv => by have e : exStoWt.cutoff = [] := rfl; rw [e] at hv; simp at hv
+        com_ok := fun c hc => by cases hc
+        gf_ok := fun t ht => by cases ht }
+    n1 := by decide, alen1 := by decide, nodup := by decide
+    name_ok := by unfold stoNameOk nameOk; decide +kernel
+    row_ok := by decide +kernel }
+
+example : stockholmRead (stockholmCfg none) (splitLines (stockholmWrite false none exStoWt))
+    = (.ok (stoProject (stockholmCfg none) exStoWt), []) := by decide +kernel
+/-- everything comes back except the numeric value of the weights, which the reader MODEL does not carry -/
+example : stoProject (stockholmCfg none) exStoWt = { exStoWt with wgt := [.val 0, .val 0] } := by decide +kernel
+example : (stockholmLines false none exStoWt).take 7 =
+    [str "# STOCKHOLM 1.0", [], str "#=GS s1 WT 0.50", str "#=GS s2 WT 1.00", [], str "#=GS s2 AC Q2", []] := by decide +kernel
+example := stockholm_roundtrip_full false none _ id _ exStoWt (stoTextWritable_writable exStoWt exStoWt_writable)
 
 /-- known finding C03:stockholm:first-mention-order: only the SECOND sequence has a `#=GS … AC` line; the reader meets `bb` first
     (in the `#=GS` section) and numbers it 0: the alignment comes back with its sequences in another order -/
